@@ -237,6 +237,12 @@ def corpus_cases(cases):
     S = serialize
     one = iogen.dbl(1.0) + iogen.dbl(2.0) + iogen.dbl(3.0)
     cases.add("corpus:D1_empty_header_only", S({"hdr": hdr(), "chunks": []}), expect="reject")
+    # around fix cc44d4f (chunk sizes were computed in 32 bits): a face chunk declaring count * valence = 2^32 + 254 handles but carrying
+    # 254 must be rejected.  (With the 32-bit product the size test passed, but the guarded decoder still ran out of data, so this file
+    # does NOT distinguish the two versions - only files >= 4 GB do: corpus/io/big_vert.cc; the tie for that fix is the regenerated
+    # leaf topo_product_bits / vert_product_bits of Gen/OvmbFormat.v, on whose value the round-trip proofs depend.)
+    cases.add("corpus:topo_size_wrap_u32", S({"hdr": hdr(nv=2, ne=1, nf=16843010), "chunks": [vert(0, 2), topo(1, 0, 1, 2, 1, [0, 1]),
+                                                                                             topo(2, 0, 16843010, 255, 1, [0] * 254), eof()]}), expect="reject")
     cases.add("corpus:D1_verts_no_eof", S({"hdr": hdr(nv=1), "chunks": [vert(0, 1)]}), expect="reject")
     cases.add("corpus:D5_default_short", S({"hdr": hdr(), "chunks": [dirp([(0, b"a", b"d", b"\0\0\0\0")]), eof()]}), expect="reject")
     cases.add("corpus:D5_default_empty", S({"hdr": hdr(), "chunks": [dirp([(0, b"a", b"u8", b"")]), eof()]}), expect="reject")
@@ -510,6 +516,13 @@ def check_C06(ctx):
         d = copy.deepcopy([m for m in ms if m.name == "tet2"][0]); d.name = nm; d.extra_k.append(line); extra.append(d)
     d = copy.deepcopy([m for m in ms if m.name == "tet2"][0]); d.name = "gc_done"; d.extra_k += ["@DelC 0", "GC"]; extra.append(d)
     d = copy.deepcopy([m for m in ms if m.name == "tet1"][0]); d.name = "tet_as_poly"; d.topo = "poly"; extra.append(d)
+    # corpus F1 (fixed b526d1c): persistent std::string properties whose default is the EMPTY string - the writer indexed one past the
+    # end of its (empty) default buffer; on every entity kind, with empty and non-empty values
+    d = iogen.Desc("emptystr_default"); b = iogen.Builder(d); v = b.v(4); b.tet(*v)
+    for kind in ("V", "E", "HE", "F", "HF", "C", "M"):
+        n = d.count(kind)
+        d.props.append((kind, "s32", ("es_" + kind).encode(), b"", [b"" if i % 2 else b"x%d" % i for i in range(n)]))
+    extra.append(d)
     d = copy.deepcopy([m for m in ms if m.name == "hex1"][0]); d.name = "hex_as_poly"; d.topo = "poly"; extra.append(d)
     # (i) byte-exact writer tie: ovmb_write(real mesh) == encode(observe mesh); write -> read -> compare on the implementation
     if impl:
